@@ -6,12 +6,12 @@ CHECKS = {
  # id: (category, technique, text, note, design_ref)
  "C12": ("model_checking",
    "bounded-exhaustive enumeration of pattern × subject × mode against a reference matcher",
-   "Every pattern up to 3 (quick) / 5 (thorough) symbols over the 12-symbol pattern alphabet is run against every subject up to 4 symbols over the 7-symbol subject alphabet in all four modes, plus a fixed block for classes, multi-byte runes, regexp metacharacters and regexp-repetition shapes (a{2}, a{1,}, (a), a|b, ^a$) a bracket-expression family of up to 7 symbols (negation, leading ']', ≤ 3 members, context) and all ordered pairs of short patterns (for a list the result must be the shortest/longest portion for at least one of its patterns taken alone); each call is compared with an independent backtracking matcher. Complete within the stated alphabet and bounds, nothing sampled.",
+   "Every pattern up to 3 (quick) / 5 (thorough) symbols over the 12-symbol pattern alphabet is run against every subject up to 4 symbols over the 7-symbol subject alphabet in all four modes, plus a fixed block for classes, multi-byte runes, regexp metacharacters and regexp-repetition shapes (a{2}, a{1,}, (a), a|b, ^a$) a bracket-expression family of up to 7 symbols (negation, leading ']', ≤ 3 members, context) and all ordered pairs of short patterns (for a list the result is the shortest/longest portion over all its patterns; each pair [p1, p2] is followed in the same process by the single pattern 'p1|p2', so that nothing a call leaves behind leaks into the next); each call is compared with an independent backtracking matcher. Complete within the stated alphabet and bounds, nothing sampled.",
    "Trusts the reference matcher (patmodel.go); patterns POSIX leaves undefined may fail or agree with the model; longer patterns / other characters are outside the bound.",
    "DESIGN.md §6 C12, §4.3"),
  "C14": ("model_checking",
    "bounded-exhaustive enumeration of segment words × IFS settings against a reference splitter",
-   "Every word of up to 6 (quick) / 7 (thorough) segments over the 8 segment kinds of the statement, under 13 IFS settings (incl. letters, characters from the upper half of ASCII, and the white-space-only values newline and blank, for which white space outside IFS is a segment kind of its own) and 3 realisations, 9-10 segment kinds incl. an unknown tilde-prefix and an unquoted expansion that produces nothing, words of 1-40 repetitions of 9 units, (literal parts, parameter expansions, single quotes), is expanded by the real Expand and compared with a splitter written from the statement; additionally histories on ONE environment: every sequence of ≤ 3 (thorough 4) IFS settings with 5 probe words expanded after each change, and every pair (IFS1, probe) then (IFS2, word ≤ 3 characters over {a space , : é tab}). Complete within those bounds.",
+   "Every word of up to 6 (quick) / 7 (thorough) segments over the 8 segment kinds of the statement, under 13 IFS settings (incl. letters, characters from the upper half of ASCII, and the white-space-only values newline and blank, for which white space outside IFS is a segment kind of its own) and 3-4 realisations (literal parts, parameter expansions, single quotes, and for words of ≤ 4 segments the literal word of ${u:-…}), 9-10 segment kinds incl. an unknown tilde-prefix and an unquoted expansion that produces nothing, words of 1-40 repetitions of 9 units, (literal parts, parameter expansions, single quotes), is expanded by the real Expand and compared with a splitter written from the statement; additionally histories on ONE environment: every sequence of ≤ 3 (thorough 4) IFS settings with 5 probe words expanded after each change, and every pair (IFS1, probe) then (IFS2, word ≤ 3 characters over {a space , : é tab}). Complete within those bounds.",
    "Trusts the reference splitter (c14Ref); words are built as AST values with NoGlob set; longer words and other IFS values are outside the bound.",
    "DESIGN.md §6 C14, §4.2"),
  "C11": ("model_checking",
